@@ -20,6 +20,8 @@ import JjModel.Lemmas.HeadsInv
     reference-update phase leaves a well-formed index and no reference on a rewritten commit
     (`RebaseRefsOk`, not proved here: it is C11's `bookmarks_follow`); the head part
     (`update_heads_covers`: every visible commit that was not rewritten stays visible) is proved.
+    `checkRebaseRefsOk_sound` / `rebase_inv_monitored`: the premise is decided by an executable
+    monitor that the driver evaluates on every `rebase` of every generated sequence.
 -/
 namespace JjModel.C10
 open JjModel.Heads JjModel.Refs
@@ -139,6 +141,18 @@ theorem rebase_inv_partial (r : Repo) (h : RebaseRefsOk r) :
   have p' : Pre { u with mapping := [] } :=
     ⟨WF.congr (r := u) rfl rfl p.wf, p.nodup, p.range, p.flag, p.cov⟩
   exact ⟨p', ⟨p'.flag hflag, p'.cov⟩⟩
+
+/-- The executable monitor run by the driver on every `rebase` of every case is sound for the
+premise of `rebase_inv_partial` … -/
+theorem checkRebaseRefsOk_sound (r : Repo) (h : checkRebaseRefsOk r = true) : RebaseRefsOk r :=
+  Heads.checkRebaseRefsOk_sound r h
+
+/-- … so whenever the monitor accepts (it did on every `rebase` of every generated sequence of the
+main stream; a rejection would show up as a model/implementation disagreement),
+`rebase_descendants` re-establishes the invariant. -/
+theorem rebase_inv_monitored (r : Repo) (h : checkRebaseRefsOk r = true) :
+    Pre (rebaseDescendants r) ∧ Inv (rebaseDescendants r) :=
+  rebase_inv_partial r (checkRebaseRefsOk_sound r h)
 
 /-- the operations covered by the theorem, with their preconditions in the current state
 (`rmhead` — `MutableRepo::remove_head` on its own — is not among them) -/
